@@ -621,6 +621,97 @@ pub fn crypt() -> Frag {
     Frag { name: "crypt", objs, slots, trailer: "/Root 1 0 R /Encrypt 6 0 R /ID [(0123456789abcdef) (0123456789abcdef)]".into() }
 }
 
+/// annotations and their appearance dictionaries (nested dictionaries of appearance states)
+pub fn annotations(k: usize) -> Frag {
+    let t: Vec<u64> = (10..10 + k as u64).collect();
+    let mut objs = vec![
+        (1, Body::Plain("<< /Type /Catalog /Pages 2 0 R >>".into())),
+        (2, Body::Plain("<< /Type /Pages /Kids [3 0 R] /Count 1 /MediaBox [0 0 10 10] >>".into())),
+        (3, Body::Plain("<< /Type /Page /Parent 2 0 R /Resources << >> /Annots [8 0 R] >>".into())),
+        (7, Body::Stream("/Type /XObject /Subtype /Form /BBox [0 0 1 1]".into(), None, b"q Q".to_vec())),
+    ];
+    let mut slots = vec![];
+    slots.push(refs_slot(&[10, 11, 7, 3, 8], 10));
+    slots.push(opt_key_slot("P", &[3, 2, 8, 10], Some(3)));
+    objs.push((8, Body::Plain("<< /Type /Annot /Subtype /Widget /Rect [0 0 1 1] {1} /AP << /N {0} /D {0} >> >>".into())));
+    for (i, id) in t.iter().enumerate() {
+        let mut options = vec!["<< /On 7 0 R /Off 7 0 R >>".to_string(), rf(7)];
+        for a in &t {
+            options.push(format!("<< /On {} /Off 7 0 R >>", rf(*a)));
+            options.push(format!("<< /On << /In {} >> >>", rf(*a)));
+        }
+        let d = if i + 1 < k { 2 + 2 * (i + 1) } else { 0 };
+        slots.push(choice_slot(options, d));
+        objs.push((*id, Body::Plain(format!("{{{}}}", slots.len() - 1))));
+    }
+    Frag { name: "annotations", objs, slots, trailer: "/Root 1 0 R".into() }
+}
+
+/// `levels` nodes, node i has two kids that are both node i+1 (a "ladder"): walks and loads that do not
+/// remember what they visited take 2^levels steps
+pub fn ladder(kind: &str, levels: u64) -> Planted {
+    let mut objs: Vec<(u64, Vec<u8>)> = vec![
+        (2, b"<< /Type /Pages /Kids [3 0 R] /Count 1 /MediaBox [0 0 10 10] >>".to_vec()),
+    ];
+    let first = 10u64;
+    match kind {
+        "nametree" | "numbertree" => {
+            let key = if kind == "nametree" { "/Names << /Dests 10 0 R >>" } else { "/PageLabels 10 0 R" };
+            objs.push((1, format!("<< /Type /Catalog /Pages 2 0 R {} >>", key).into_bytes()));
+            objs.push((3, b"<< /Type /Page /Parent 2 0 R /Resources << >> >>".to_vec()));
+            for i in 0..levels {
+                let me = first + i;
+                if i + 1 == levels {
+                    objs.push((me, if kind == "nametree" { b"<< /Names [(a) (b)] >>".to_vec() } else { b"<< /Nums [1 (b)] >>".to_vec() }));
+                } else {
+                    objs.push((me, format!("<< /Kids [{} {}] >>", rf(me + 1), rf(me + 1)).into_bytes()));
+                }
+            }
+        }
+        _ => {
+            objs.push((1, b"<< /Type /Catalog /Pages 2 0 R >>".to_vec()));
+            objs.push((3, b"<< /Type /Page /Parent 2 0 R /Resources << /Font << /F1 10 0 R >> >> >>".to_vec()));
+            for i in 0..levels {
+                let me = first + i;
+                if i + 1 == levels {
+                    objs.push((me, b"<< /Type /Font /Subtype /Type1 /BaseFont /Leaf >>".to_vec()));
+                } else {
+                    objs.push((me, format!("<< /Type /Font /Subtype /Type0 /BaseFont /C /Encoding /Identity-H /DescendantFonts [{} {}] >>", rf(me + 1), rf(me + 1)).into_bytes()));
+                }
+            }
+        }
+    }
+    objs.sort_by_key(|o| o.0);
+    Planted { frag: "ladder", desc: format!("ladder[{} levels={}]", kind, levels), bytes: build_doc(&objs, "/Root 1 0 R") }
+}
+
+/// a chain of `n` nested eager loads entered through a low object number: page-tree /Parent links or
+/// composite fonts (nesting beyond any supported depth)
+pub fn deep_chain(kind: &str, n: u64) -> Planted {
+    let mut objs: Vec<(u64, Vec<u8>)> = vec![(1, b"<< /Type /Catalog /Pages 2 0 R >>".to_vec())];
+    if kind == "parents" {
+        objs.push((2, b"<< /Type /Pages /Kids [4 0 R] /Count 1 /MediaBox [0 0 1 1] >>".to_vec()));
+        objs.push((4, b"<< /Type /Page /Parent 10 0 R >>".to_vec()));
+        for i in 0..n {
+            let me = 10 + i;
+            let parent = if i + 1 == n { 2 } else { me + 1 };
+            objs.push((me, format!("<< /Type /Pages /Parent {} /Kids [4 0 R] /Count 1 >>", rf(parent)).into_bytes()));
+        }
+    } else {
+        objs.push((2, b"<< /Type /Pages /Kids [3 0 R] /Count 1 /MediaBox [0 0 1 1] >>".to_vec()));
+        objs.push((3, b"<< /Type /Page /Parent 2 0 R /Resources << /Font << /F1 10 0 R >> >> >>".to_vec()));
+        for i in 0..n {
+            let me = 10 + i;
+            if i + 1 == n {
+                objs.push((me, b"<< /Type /Font /Subtype /Type1 /BaseFont /Leaf >>".to_vec()));
+            } else {
+                objs.push((me, format!("<< /Type /Font /Subtype /Type0 /BaseFont /C /Encoding /Identity-H /DescendantFonts [{}] >>", rf(me + 1)).into_bytes()));
+            }
+        }
+    }
+    Planted { frag: "deep-chain", desc: format!("deep-chain[{} n={}]", kind, n), bytes: build_doc(&objs, "/Root 1 0 R") }
+}
+
 // ---------------------------------------------------------------------------------------------------
 // documents that need their own layout (cross-reference streams, object streams, /Prev)
 
